@@ -68,9 +68,26 @@ def specParse (t : Nat) (s : List Char) : Option Obs :=
     let body := match s with | '+' :: r => r | _ => s
     if !body.isEmpty && body.all Char.isDigit && numeralValue s ≤ T.max then [1, (numeralValue s : Int)] else [0])
 
-def modelDisplay (v : Nat) : Obs := (displayNat v).map (fun c => (c.toNat : Int))
-/-- independent decimal printer from Lean's library -/
-def specDisplay (v : Nat) : Obs := (Nat.toDigits 10 v).map (fun c => (c.toNat : Int))
+/-- the format specs the harness prints with, in the same order as `nums::fmt_spec` -/
+def fmtSpecs : Array FmtSpec := #[
+  {},                                                     -- {}
+  { width := some 5 },                                    -- {:5}
+  { zero := true, width := some 5 },                      -- {:05}
+  { align := some .left, width := some 5 },               -- {:<5}
+  { plus := true },                                       -- {:+}
+  { precision := some 2 },                                -- {:.2}
+  { align := some .center, width := some 7 },             -- {:^7}
+  { fill := '*', align := some .right, width := some 6 }, -- {:*>6}
+  { plus := true, zero := true, width := some 7 },        -- {:+07}
+  { align := some .right, width := some 1 },              -- {:>1}
+  { fill := '_', align := some .center, plus := true, width := some 8 }  -- {:_^+8}
+]
+
+def modelDisplay (k v : Nat) : Option Obs :=
+  (fmtSpecs[k]?).map (fun f => (displayWith f v).map (fun c => (c.toNat : Int)))
+/-- independent decimal printer from Lean's library, framed by the same padding rule -/
+def specDisplay (k v : Nat) : Option Obs :=
+  (fmtSpecs[k]?).map (fun f => (padIntegral f (Nat.toDigits 10 v)).map (fun c => (c.toNat : Int)))
 
 /-- derived Ord / Eq on the one-field tuple struct: comparison of the payloads (modelled derive) -/
 def modelOrd (a b : Nat) : Obs :=
